@@ -479,16 +479,20 @@ def adversarial_reads(tier, seed):
             corpus.mk("adv_alt", [corpus.rx("(a|ab|abc)*d"), corpus.rx("[abc]")]),
             corpus.mk("adv_cnt", [corpus.rx("(aa|aaa)+;"), corpus.rx("a")])]
     defs_path, metas, _ = capture(defs, "adv")
-    bins = build_subjects(metas, ["tc", "sm"], "adv")
-    n = 5000 if tier == "quick" else 100000
-    reqs = []
-    for m in metas:
-        for unit, tail in (("61", ""), ("6162", ""), ("61", "62"), ("616161", "3b")):
-            reqs.append(("%d ft4 %s*%d+%s" % (m["idx"], unit, n // (len(unit) // 2), tail), m, bytes.fromhex(unit) * (n // (len(unit) // 2)) + bytes.fromhex(tail)))
+    # (configuration, input length): the tail-call lexer of an UNOPTIMISED build uses stack in proportion to the
+    # token length (every state transition is a call; documented upstream in book/src/state-machine-codegen.md),
+    # so the long inputs of the thorough tier go to the optimised tail-call build and the state-machine build
+    plan = [("tc", 5000), ("sm", 5000)] if tier == "quick" else [("tc", 5000), ("tc_rel", 100000), ("sm", 100000)]
+    bins = build_subjects(metas, sorted({c for c, _ in plan}), "adv")
+    n = max(k for _, k in plan)
     viol = []
     runs = []
     info = []
-    for c in ("tc", "sm"):
+    for c, n_c in plan:
+        reqs = []
+        for m in metas:
+            for unit, tail in (("61", ""), ("6162", ""), ("61", "62"), ("616161", "3b")):
+                reqs.append(("%d ft4 %s*%d+%s" % (m["idx"], unit, n_c // (len(unit) // 2), tail), m, bytes.fromhex(unit) * (n_c // (len(unit) // 2)) + bytes.fromhex(tail)))
         reps = run_subject(bins[c], [r[0] for r in reqs], timeout=900)
         for (line, m, data), rep in zip(reqs, reps):
             if "items" not in rep:
@@ -500,7 +504,7 @@ def adversarial_reads(tier, seed):
     for r in rej:
         m, line, c = info[r["run"]]
         viol.append({"key": "%s:adv-reads:%s" % (m["id"], line.split(" ", 2)[2]), "what": "read trace rejected at event %s on %s (%s)" % (json.dumps(r["event"]), line[:60], c), "definition": m["src"]})
-    return {"violations": viol, "summary": {"inputs": len(reqs), "length": n, "events_validated": total, "accepted": acc}}
+    return {"violations": viol, "summary": {"inputs": len(reqs) * len(plan), "length": n, "plan": ["%s:%d" % p for p in plan], "events_validated": total, "accepted": acc}}
 
 
 REL_CFGS = ["tc", "tc_safe", "sm", "sm_safe", "tc_rel", "tc_safe_rel"]
